@@ -39,7 +39,8 @@ RULE = ('case = one (class, size) whose distance search terminated; distinct '
         'actually ran)')
 ASSUMPTIONS = ['supported size family = pv/families.py',
                'C01: the listed logicals generate all logical classes']
-REQUIRED_COUNTERS = ['codes_decided', 'search_nodes', 'deformed_d_compared',
+REQUIRED_COUNTERS = ['d_reread_on_one_object',
+                     'codes_decided', 'search_nodes', 'deformed_d_compared',
                      'inputs_d_compared']
 SHARD_TIMEOUT = {'quick': 900, 'thorough': 5400}
 
@@ -190,6 +191,32 @@ def run_code(task, out):
             out.violation(f'{cls}/{dn}/deformed-d-differs',
                           f'd={d} undeformed but {dd} after {dn} {kw}',
                           dict(desc, deformation=dn, kwargs=kw))
+    # d over the life of ONE object: read, deformed, read again (each offered
+    # deformation in turn); and read after the public getters were called
+    try:
+        obj = fam.build(cls, size)
+        seq = [int(obj.d)]
+        for dn, kw in fam.deformations(cls)[1:3]:
+            obj.deform(dn, **kw)
+            seq.append(int(obj.d))
+        obj2 = fam.build(cls, size)
+        obj2.get_logicals_x()
+        obj2.get_logicals_z()
+        obj2.get_stabilizer_coordinates()
+        seq.append(int(obj2.d))
+        out.count('d_reread_on_one_object', len(seq))
+        if any(x != d for x in seq):
+            out.violation(f'{cls}/d-changes-over-object-life',
+                          f'd={d} on a fresh object but {seq} when read, '
+                          'deformed and read again / after the public '
+                          'getters were called', desc)
+    except Exception as e:
+        where = panqec_frame(e)
+        if where is None:
+            raise
+        out.violation(f'{cls}/d-raises-{type(e).__name__}',
+                      f'{type(e).__name__}: {e} at {where} (object reused)',
+                      desc)
     # the d recorded with simulation inputs
     from panqec.simulation import DirectSimulation
     from panqec.error_models import PauliErrorModel
